@@ -176,6 +176,25 @@ Catalogue == [
    Formula_SDCT_surf_II |-> F(Const(transform_odd_trans_102, odd), Cond(1), "dyn") ]
 Formulas == DOMAIN Catalogue
 
+(* NESTED compositions (input class of C08): a FormulaProduct one of whose factors is itself a FormulaProduct / FormulaSum /
+   DeltaProduct (their transformTR / transformInv are then TransformProduct INSTANCES, not the module constants), as they
+   arise when a user passes such a formula to StaticCalculator(Formula=...) / Tabulator(Formula=...).  The product rule is
+   applied recursively over the tree: the parity of a product is the product of the parities of its factors. *)
+pMV == Mul(<<Dk(pV), pV>>)
+dMassVel == ProdOf(<<Ref("InvMass"), Vel>>)
+Nested == [
+   N_MassVel_Vel     |-> F(ProdOf(<<Ref("MassVel"), Vel>>), Mul(<<pMV, pV>>), "ln"),                      \* odd inner product
+   N_VelVelVel_Vel   |-> F(ProdOf(<<Ref("VelVelVel"), Vel>>), Mul(<<Mul(<<pV, pV, pV>>), pV>>), "ln"),     \* odd inner product
+   N_MassVel_Omega   |-> F(ProdOf(<<Ref("MassVel"), Ref("Omega")>>), Mul(<<pMV, pOm>>), "ln"),             \* odd x (TR-odd constant)
+   N_VelVel_Vel      |-> F(ProdOf(<<Ref("VelVel"), Vel>>), Mul(<<Mul(<<pV, pV>>), pV>>), "ln"),            \* even inner product
+   N_VelVel_MassVel  |-> F(ProdOf(<<Ref("VelVel"), Ref("MassVel")>>), Mul(<<Mul(<<pV, pV>>), pMV>>), "ln"),  \* two inner products
+   N_Sum_Vel         |-> F(ProdOf(<<SumOf(<<dMassVel, dMassVel>>), Vel>>), Mul(<<Plus(<<pMV, pMV>>), pV>>), "ln"),   \* odd inner FormulaSum
+   N_Delta_Omega     |-> F(ProdOf(<<Same(dMassVel), Ref("Omega")>>), Mul(<<pMV, pOm>>), "ln"),             \* odd inner DeltaProduct
+   N_MassVelVel_Vel  |-> F(ProdOf(<<ProdOf(<<Ref("MassVel"), Vel>>), Vel>>), Mul(<<Mul(<<pMV, pV>>), pV>>), "ln") ]   \* depth 3
+NestedNames == DOMAIN Nested
+AllNames == Formulas \cup NestedNames
+Entry(f) == IF f \in Formulas THEN Catalogue[f] ELSE Nested[f]
+
 RECURSIVE DeclOf(_)
 RECURSIVE DeclSeq(_)
 DeclSeq(rs) == IF rs = <<>> THEN <<>> ELSE <<DeclOf(rs[1])>> \o DeclSeq(Tail(rs))
@@ -193,8 +212,34 @@ DeclOf(r) ==
                         IF \A j \in 1..Len(ds) : IsTransform(ds[j].tr) /\ IsTransform(ds[j].inv)
                                                  /\ ds[j].tr.factor = ds[1].tr.factor /\ ds[j].inv.factor = ds[1].inv.factor
                         THEN ds[1] ELSE Pair(RaiseT, RaiseT)
-Declared(f) == DeclOf(Catalogue[f].decl)
-Expected(f) == Derived(Catalogue[f].phys)
+Declared(f) == DeclOf(Entry(f).decl)
+Expected(f) == Derived(Entry(f).phys)
+
+(* must-fail variant "only the literal module constants count": a product counts a factor as odd only if the factor's transform
+   IS one of the module constants transform_odd (hard-coded constants and get_transform_TR/Inv return them; a product
+   creates a new object, sums / delta products / references pass their first factor's object on) *)
+RECURSIVE IsLiteral(_)
+IsLiteral(r) ==
+   CASE r[1] = "const" -> TRUE
+     [] r[1] = "cov" -> TRUE
+     [] r[1] = "ref" -> IsLiteral(Catalogue[r[2]].decl)
+     [] r[1] = "same" -> IsLiteral(r[2])
+     [] r[1] = "prod" -> FALSE
+     [] r[1] = "sum" -> IsLiteral(r[2][1])
+RECURSIVE DeclOfLit(_)
+RECURSIVE LitFactorTR(_)
+RECURSIVE LitFactorInv(_)
+LitFactorTR(rs) == IF rs = <<>> THEN 1 ELSE (IF IsLiteral(rs[1]) THEN DeclOfLit(rs[1]).tr.factor ELSE 1) * LitFactorTR(Tail(rs))
+LitFactorInv(rs) == IF rs = <<>> THEN 1 ELSE (IF IsLiteral(rs[1]) THEN DeclOfLit(rs[1]).inv.factor ELSE 1) * LitFactorInv(Tail(rs))
+DeclOfLit(r) ==
+   CASE r[1] = "prod" -> LET d == DeclOf(r) IN
+                         IF IsTransform(d.tr) /\ IsTransform(d.inv)
+                         THEN Pair([d.tr EXCEPT !.factor = LitFactorTR(r[2])], [d.inv EXCEPT !.factor = LitFactorInv(r[2])]) ELSE d
+     [] r[1] = "ref" -> DeclOfLit(Catalogue[r[2]].decl)
+     [] r[1] = "same" -> DeclOfLit(r[2])
+     [] r[1] = "sum" -> DeclOfLit(r[2][1])
+     [] OTHER -> DeclOf(r)
+DeclaredLit(f) == DeclOfLit(Entry(f).decl)
 
 -----------------------------------------------------------------------------
 (* Transform.__call__ on a tensor of rank Len(axes) (or 2 when there is no transposition): numpy semantics *)
